@@ -11,7 +11,13 @@ S: serialize} ending in S, under deferred parsing; eager parsing adds {S, T S, S
 {XS, XBS, BXS, XBSS}, X = the same long-lived serializer / deserializers first reject unrelated work (half-built messages an addon
 tried to send, undecodable datagrams): pass-through of this datagram must not depend on what the codec objects did before.
 
+Take histories (every generator datagram, deferred parsing): an addon take()s the message (copy) before or after the body was touched,
+then both objects are inspected in either order and both are serialized: {K Sc S, K Bc B S Sc, K B Bc S Sc, B K Bc S Sc}.
+
 Clauses:
+  take-original        after take(), the original still satisfies the clauses above (S == d when canonical and NaN-free)
+  take-copy            the copy serializes to a datagram that decodes to the blocks a fresh parse of d gives (the copy and the original
+                       must not share parse state)
   unparsed-identical   never inspected / header-only inspected: S == d
   failed-parse-forward body inspection raised: every later S == d (retrying B changes nothing)
   parsed-identical     parsed successfully, zero-coding canonical (or not zerocoded), no NaN decoded: S == d
@@ -264,6 +270,55 @@ def _family_cases(name: str) -> List[Tuple[str, bytes]]:
     return out
 
 
+TAKE_HISTS = ["KcS", "KbBSc", "KBbSc", "BKbSc"]     # K take; B / b touch blocks of original / copy; S / c serialize original / copy
+
+
+def _blocks_sig(msg):
+    return _msg_sig(msg)[5]
+
+
+def check_take(part: Part, d: bytes, ser, de_lazy, de_check):
+    try:
+        fresh = de_check.deserialize(d)
+        want = _blocks_sig(fresh)
+        nan = _has_nan(fresh)
+    except Exception:
+        return      # undecodable body: covered by failed-parse-forward
+    canon_zc = canonical_zerocoding(d)
+    for h in TAKE_HISTS:
+        part.count("evaluations")
+        part.count("take_histories")
+        witness = {"datagram": d, "history": h, "mode": "take", "origin": "gen"}
+        msg = de_lazy.deserialize(d)
+        copy_ = None
+        try:
+            for op in h:
+                if op == "K":
+                    copy_ = msg.take()
+                elif op == "B":
+                    list(msg.blocks.items())
+                elif op == "b":
+                    list(copy_.blocks.items())
+                elif op == "S":
+                    out = bytes(ser.serialize(msg))
+                    if out != d and canon_zc and not nan:
+                        part.violation("take-original", f"serialize-original:{'parsed' if 'B' in h else 'raw'}", witness,
+                                       f"history {h}: the original re-encoded differently after take(): len {len(d)} -> {len(out)}")
+                    elif nan or not canon_zc:
+                        if not nan and _blocks_sig(de_check.deserialize(out)) != want:
+                            part.violation("take-original", "serialize-original:reparse", witness, f"history {h}: original decodes differently")
+                elif op == "c":
+                    outc = bytes(ser.serialize(copy_))
+                    got = _blocks_sig(de_check.deserialize(outc))
+                    if not nan and got != want:
+                        nb = {bn: len(bl) for bn, bl in got}
+                        part.violation("take-copy", f"Message.take:{'parsed' if h.index('K') > 0 else 'unparsed'}-original", witness,
+                                       f"history {h}: the taken copy serializes to a datagram that decodes to different blocks "
+                                       f"(block counts {nb}, {len(outc)} bytes for a {len(d)}-byte original)")
+        except Exception as e:
+            part.violation("take-copy", "Message.take:raises", witness, f"history {h}: {type(e).__name__}: {e}")
+
+
 _REJ = None
 
 
@@ -292,6 +347,7 @@ def _work(unit):
     if kind == "gen":
         for origin, d in _family_cases(name):
             check_datagram(part, d, "gen", ser, de_lazy, de_eager, hists + X_HISTS, de_check)
+            check_take(part, d, ser, de_lazy, de_check)
         part.sample({"family": "gen", "template": name, "histories": hists[:6]}, limit=1)
     elif kind == "mut":
         tmpl = g.templates[name]
@@ -356,7 +412,7 @@ def run(run: Run):
                 "truncation, every single-byte substitution with {00,01,7F,80,FF} at every offset, 5 extensions, ack-count tampering; "
                 "(c) non-canonical zero-codings and wire-first byte fields with 0..3 trailing NULs; x every inspection history of length <= %d "
                 "over {H,B,T,S} ending in S (deferred) + {S,TS,SS,BS} (eager) + for generator datagrams {XS,XBS,BXS,XBSS} where X = rejected "
-                "serialize/deserialize calls on the same codec objects. distinct_nontrivial = distinct in-scope datagrams"
+                "serialize/deserialize calls on the same codec objects, and the take histories {KcS, KbBSc, KBbSc, BKbSc} (K = take(), lower case = the copy). distinct_nontrivial = distinct in-scope datagrams"
                 % (len(names), len(BASIS), _HLEN))
     run.assumptions += ["datagrams the header parser rejects are out of scope (counted)",
                         "byte-identity after a successful parse is required only when the zero-coding is canonical and no float decodes to NaN",
@@ -365,6 +421,11 @@ def run(run: Run):
 
 def replay(w):
     part = Part()
+    if w.get("mode") == "take":
+        s_e = Settings()
+        s_e.ENABLE_DEFERRED_PACKET_PARSING = False
+        check_take(part, bytes(w["datagram"]), UDPMessageSerializer(), UDPMessageDeserializer(settings=Settings()), UDPMessageDeserializer(settings=s_e))
+        return list(part.viol.values())
     ser = UDPMessageSerializer()
     s_e = Settings()
     s_e.ENABLE_DEFERRED_PACKET_PARSING = False
